@@ -71,6 +71,7 @@ pub fn c01(ctx: &mut Ctx) {
 }
 
 pub fn ps_exhaustive(ctx: &mut Ctx, leg: &str, alpha: &[ps::PsOp], maxlen: usize, nontrivial: fn(&PsFacts) -> bool) {
+    if let Ok(only) = std::env::var("VERIF_LEGS") { if !only.split(',').any(|l| l == leg) { return; } }
     use std::sync::{Arc, Mutex};
     let k = alpha.len() as u64;
     let t0 = std::time::Instant::now();
@@ -168,6 +169,7 @@ pub fn rr_eval(opts: RrOpts, nontrivial: fn(&RrFacts) -> bool) -> impl Fn(&RrCas
 }
 
 pub fn rr_exhaustive(ctx: &mut Ctx, leg: &str, alpha: &[rr::RrOp], maxlen: usize, opts: RrOpts, nontrivial: fn(&RrFacts) -> bool) {
+    if let Ok(only) = std::env::var("VERIF_LEGS") { if !only.split(',').any(|l| l == leg) { return; } }
     use std::sync::{Arc, Mutex};
     let k = alpha.len() as u64;
     let t0 = std::time::Instant::now();
@@ -309,6 +311,8 @@ pub fn c16(ctx: &mut Ctx) {
     if ctx.failed() { return; }
     let g = RrGen { wake_only: true, many_repliers: true, ..g };
     ctx.search("rr-close-wake-only", move || rr::case_strategy(g), ctx.tier.pick(60_000, 1_500_000), true, rr_eval(RrOpts::default(), c16_rr_nontrivial));
+    if ctx.failed() { return; }
+    ctx.search("ps-close-during-poll", super::closepoll::strategy, ctx.tier.pick(3_000, 60_000), true, super::closepoll::run_case);
     if ctx.failed() { return; }
     let alpha = ps::small_alphabet(true, false);
     ps_exhaustive(ctx, "ps-close-exhaustive", &alpha, ctx.tier.pick(5, 7), c16_ps_nontrivial);
